@@ -200,6 +200,10 @@ def run_programs(task):
                             res.nontrivial += 1
                         f = compile_prog(src, name, g)
                         outcome = attempt(alg, f, x, y, mode)
+                        if outcome[0] == 'timeout':
+                            res.count('symbolic_timeouts')
+                            res.skipped += 1
+                            break
                         verdict = judge(outcome, want, ing)
                         if verdict:
                             # classify on a fresh algebra (rules out history effects, which C09 owns)
@@ -222,16 +226,40 @@ def run_programs(task):
     return res.asdict()
 
 
+class _Timeout(Exception):
+    pass
+
+
+def _alarm(signum, frame):
+    raise _Timeout()
+
+
+SYMBOLIC_TIME_LIMIT = 20      # seconds per symbolic registration (symbolic optimisation of long expressions can take hours)
+
+
 def attempt(alg, f, x, y, mode):
+    import signal
+    old = None
+    if mode == 'symbolic':
+        old = signal.signal(signal.SIGALRM, _alarm)
+        signal.alarm(SYMBOLIC_TIME_LIMIT)
     try:
         reg = alg.register(f) if mode == 'numeric' else alg.register(symbolic=True)(f)
         return ('ok', as_elem(reg(x, y)))
+    except _Timeout:
+        return ('timeout', 'symbolic optimisation exceeded the time limit')
     except Exception as e:
         return ('exc', f'{type(e).__name__}: {e}'[:200])
+    finally:
+        if mode == 'symbolic':
+            signal.alarm(0)
+            signal.signal(signal.SIGALRM, old)
 
 
 def judge(outcome, want, in_grammar):
     """None if acceptable, else a short verdict."""
+    if outcome[0] == 'timeout':
+        return None
     if outcome[0] == 'exc':
         return None if not in_grammar else 'raises ' + outcome[1].split(':')[0]
     got = outcome[1]
@@ -277,10 +305,10 @@ def drive(ctx):
     else:
         for a in algs:
             alg = Algebra(*ALGS[a])
-            for ch in chunks(depth2(alg), 160):
-                tasks.append((a, ch, all_l, ['Fraction'], ['numeric'], kb))
-            for ch in chunks(depth2(alg, core=True), 48):
-                tasks.append((a, ch, ['dense', 'vector'], ['float'], ['numeric', 'symbolic'] if a != 'mix3' else ['numeric'], kb))
+            for ch in chunks(depth2(alg), 256):
+                tasks.append((a, ch, ['dense', 'revsparse', 'vector'] if a != 'mix3' else ['dense', 'revsparse'], ['Fraction'], ['numeric'], kb))
+            for ch in chunks(depth2(alg, core=True), 64):
+                tasks.append((a, ch, ['dense', 'vector'], ['float'], ['numeric', 'symbolic'] if a == 'vga2' else ['numeric'], kb))
     for out in ctx.map('run_programs', tasks):
         merge(ctx.agg, out)
     ctx.strata['depth 2: unary(E1), binary(E1,arg), binary(arg,E1)'] = {'evaluations': ctx.agg['evals'] - e0, 'complete': True}
